@@ -655,7 +655,9 @@ func (d *mwDownstream) emitLoop(ctx context.Context, ci int, s *mwSession, send 
 		case "EVENT":
 			m = mocrelay.NewServerEventMsg(e.Sub, d.evs[e.Ev])
 		case "OK":
-			m = mocrelay.NewServerOKMsg(d.evs[e.Ev].ID, e.Ev%2 == 0, "", "from downstream")
+			// accepting, or refusing with one of the machine-readable prefixes
+			pre := []string{"", "", "rate-limited: ", "error: ", "duplicate: ", "blocked: "}[(e.Ev+len(s.emits))%6]
+			m = mocrelay.NewServerOKMsg(d.evs[e.Ev].ID, pre == "" && e.Ev%2 == 0, pre, "from downstream")
 		case "NOTICE":
 			m = mocrelay.NewServerNoticeMsg("downstream notice")
 		case "CLOSED":
